@@ -358,7 +358,7 @@ def run(F, rep, tier, allfacts):
     if os.environ.get("FV_WRITE_TABLES") == "1":
         json.dump({k: {"guards": [d for d, _ in v], "why_unreachable": ""} for k, v in sorted(cur.items())}, open(TABLE + ".new", "w"), indent=1, sort_keys=True)
     table = json.load(open(TABLE))
-    rep.floor("TAB-bug-sites", "Bug construction sites", len(sites), 12)
+    rep.floor("TAB-bug-sites", "Bug construction sites", len(sites), 9)
     tables.compare(rep, "TAB-bug-sites", table, cur, missing_is_violation=False, new_is_violation=True, what="internal-bug construction site", reason_key="why_unreachable")
     for key in table:
         if key not in cur:
